@@ -19,12 +19,12 @@ COQ_TARGETS = ["Props/C16.vo", "Model/C16Harness.vo", "Model/Harness.vo"]
 THEOREM_FILES = ["Props/C16.v"]
 COQ_IMPORTS = ("From Coq Require Import String.\nFrom Coq Require Import List ZArith Bool.\n"
                "From PV Require Import Base.Index Np.Array Model.Sparse Model.Repr Model.Harness Model.C16IO Model.C16Harness.\n")
-RULE = ("objects of the four kinds with seeded random shapes (orders 1-5, singleton modes, 1-way; ranks 1-5, non-square "
+RULE = ("objects of the four kinds (np.ndarray as 2-way matrix and as 1-/3-/4-way array) with seeded random shapes (orders 1-5, singleton modes, 1-way; ranks 1-5, non-square "
         "factors; C-, F- and non-contiguous matrices; sparse: empty/one/some/full, stored orders sorted/reversed/random, "
         "index bases -3..10); values = finite doubles over the whole exponent range (uniform bit patterns, subnormals, "
         "+-max, +-min normal, powers of two +-1 ulp, 17-significant-digit-critical constants, +-0), carried as 64-bit "
         "patterns; non-trivial = more than one value and not all values equal")
-CORRESPONDENCE_ONLY = ["np.ndarray export/import of arrays that are not 2-way (the model's matrix is 2-way)"]
+CORRESPONDENCE_ONLY = []
 ASSUMPTIONS = [
     "parse (print v) = v for every finite double v, where print is numpy tofile with format '%.16e' (libc printf) and "
     "parse is numpy fromfile(sep=' ') / float(str): a Section hypothesis of every C16 theorem; tested bit-for-bit on "
@@ -118,12 +118,13 @@ def gen_cases(rng, tier):
     for shp in shapes:
         bits = rand_vals(rng, math.prod(shp))
         cases.append(Case("tensor", {"shape": list(shp), "bits": bits}, nt(bits)))
-    # long value lists: volume for the parse(print v) = v assumption
-    for k in range(36 if big else 2):
-        n = 2000 if big else 400
+    # long value lists: volume for the parse(print v) = v assumption (spread over the list so that the coqc shards balance)
+    volume = []
+    for k in range(62 if big else 2):
+        n = 1000 if big else 400
         shp = [n] if k % 3 == 0 else ([n // 8, 8] if k % 3 == 1 else [5, n // 20, 4])
         bits = rand_vals(rng, math.prod(shp))
-        cases.append(Case("tensor", {"shape": shp, "bits": bits}, True))
+        volume.append(Case("tensor", {"shape": shp, "bits": bits}, True))
     # -0.0 / +0.0 / extremes explicitly
     cases.append(Case("tensor", {"shape": [2, 3], "bits": [SIGN, 0, MAXF, MAXF | SIGN, 1, 1 | SIGN]}, True))
     cases.append(Case("tensor", {"shape": [len(CRITICAL)], "bits": [f2b(x) for x in CRITICAL]}, True))
@@ -160,6 +161,15 @@ def gen_cases(rng, tier):
         rows = [rand_vals(rng, n) for _ in range(m)]
         cases.append(Case("matrix", {"m": m, "n": n, "rows": rows, "layout": rng.choice(["C", "F", "strided", "transposed_view"])},
                           m * n > 1))
+    # np.ndarray that is not 2-way (vector, 3-way, 4-way): shape and C-order listing
+    for _ in range(90 if big else 20):
+        shp = tgen.rand_shape(rng, maxn=4, maxcells=(200 if big else 48), maxdim=6)
+        if len(shp) == 2:
+            shp = shp + [rng.randint(1, 3)]
+        cbits = rand_vals(rng, math.prod(shp))
+        cases.append(Case("ndarray", {"shape": shp, "cbits": cbits, "layout": rng.choice(["C", "F"])}, nt(cbits)))
+    for k, vc in enumerate(volume):
+        cases.insert((k * len(cases)) // len(volume), vc)
     return cases
 
 
@@ -240,6 +250,10 @@ def run_impl(c):
                 M = np.ascontiguousarray(M.T).T
             obj = M
             nd = m * n
+        elif c.op == "ndarray":
+            M = _arr(np, a["cbits"], tuple(a["shape"]), "C").copy()
+            obj = np.asfortranarray(M) if a["layout"] == "F" else M
+            nd = len(a["cbits"])
         else:
             raise ValueError(c.op)
         ttb.export_data(obj, path)
@@ -285,6 +299,7 @@ def run_impl(c):
         elif isinstance(got, np.ndarray):
             o["mshape"] = [int(x) for x in got.shape]
             o["rows"] = [_bits(np, row) for row in got] if got.ndim == 2 else None
+            o["cbits"] = _bits(np, got, "C")
         return o
     except Exception as ex:
         return {"exc": type(ex).__name__, "msg": str(ex)[:300]}
@@ -324,6 +339,8 @@ def gobj_in(c):
         return f"(OSptensor (mkSp {gnlist(a['shape'])} {gnmat(a['subs'])} {gzl(a['bits'])}))"
     if c.op == "ktensor":
         return f"(OKtensor (mkK {gzl(a['weights'])} [" + "; ".join(gzm(f) for f in a["factors"]) + "]))"
+    if c.op == "ndarray":
+        return f"(OArray {gnlist(a['shape'])} {gzl(a['cbits'])})"
     return f"(OMatrix {a['m']} {a['n']} {gzm(a['rows'])})"
 
 
@@ -341,6 +358,10 @@ def gobj_out(o):
         if isinstance(o["weights"], dict) or any(isinstance(r, dict) for f in o["factors"] for r in f):
             return None
         return f"(OKtensor (mkK {gzl(o['weights'])} [" + "; ".join(gzm(f) for f in o["factors"]) + "]))"
+    if t == "ndarray" and len(o["mshape"]) != 2:
+        if isinstance(o["cbits"], dict):
+            return None
+        return f"(OArray {gnlist(o['mshape'])} {gzl(o['cbits'])})"
     if t == "ndarray":
         if o["rows"] is None or len(o["mshape"]) != 2 or any(isinstance(r, dict) for r in o["rows"]):
             return None
@@ -366,7 +387,7 @@ def oracle(c, o):
     a = c.args
     if "exc" in o:
         return f"export/import of an admissible object raised {o['exc']}: {o.get('msg')}"
-    want_type = {"tensor": "tensor", "sptensor": "sptensor", "ktensor": "ktensor", "matrix": "ndarray"}[c.op]
+    want_type = {"tensor": "tensor", "sptensor": "sptensor", "ktensor": "ktensor", "matrix": "ndarray", "ndarray": "ndarray"}[c.op]
     if o["type"] != want_type:
         return f"type changed: {want_type} -> {o['type']}"
     if c.op == "tensor":
@@ -386,4 +407,7 @@ def oracle(c, o):
     elif c.op == "matrix":
         if o["mshape"] != [a["m"], a["n"]] or o["rows"] != a["rows"]:
             return "matrix not reproduced"
+    elif c.op == "ndarray":
+        if o["mshape"] != a["shape"] or o["cbits"] != a["cbits"]:
+            return "array (shape, C-order listing) not reproduced"
     return None
